@@ -1,4 +1,5 @@
 import GdslModel.Lemmas.Serde
+import GdslModel.Lemmas.ContRun
 /-!
 # C18 — graph containers behave as key→node maps with faithful views
 Nodes are identified with their keys, so "hands out the inserted nodes themselves" is the
@@ -57,5 +58,21 @@ theorem Cont.dot_lines (adj : K → List (K × E)) (π : List K) :
     (∀ x ∈ dotPlain adj π, x.2 = (adj x.1).map (·.1)) ∧
     dotEdges adj π = π.flatMap (edgesOf adj) :=
   Cont.dot_lines' adj π
+
+/-- refinement: every history of `insert` / `remove` calls on a container behaves like the same history on a
+    plain set of keys - every call returns what the set returns, and afterwards `contains` (and with it `get`
+    and indexing, which hand out the one store cell of the key) answers as the set does -/
+theorem Cont.run_refines (ops : List (ContOp K)) :
+    (({} : Cont K).runOuts ops).2 = (SetSpec.runOuts (fun _ => false) ops).2 ∧
+    ∀ j, (({} : Cont K).runOuts ops).1.contains j = (SetSpec.runOuts (fun _ => false) ops).1 j :=
+  Cont.run_refines' {} (fun _ => false) (fun j => by simp [Cont.contains]) ops
+
+/-- after every history the member list is duplicate-free, so `len` counts distinct keys -/
+theorem Cont.run_nodup (ops : List (ContOp K)) : (({} : Cont K).runOuts ops).1.members.Nodup :=
+  Cont.run_nodup' {} (by simp) ops
+
+/-- non-vacuity: insert, rejected second insert, remove, failed remove, insert again -/
+example : (({} : Cont Nat).runOuts [.insert 1, .insert 1, .remove 1, .remove 1, .insert 1, .insert 2]).2
+    = [true, false, true, false, true, true] := by decide
 
 end G
